@@ -139,8 +139,8 @@ fn resolve(script: &[PStep], slots: &[Slot]) -> Vec<Step> {
             PStep::IntervalWith(d) => Step::IntervalWith(log::uid(), *d),
             PStep::DelayedSend(d) => Step::DelayedSend(log::uid(), *d),
             PStep::DelayedExec(d) => Step::DelayedExec(log::uid(), *d),
-            PStep::AddChild(s) => addr0(*s).map(Step::AddChild).unwrap_or(Step::Yield),
-            PStep::RegisterChild(t, s) => addr0(*s).map(|a| Step::RegisterChild(*t, a)).unwrap_or(Step::Yield),
+            PStep::AddChild(s) => addr0(*s).map(|a| Step::AddChild(a, slots[*s as usize].tag)).unwrap_or(Step::Yield),
+            PStep::RegisterChild(t, s) => addr0(*s).map(|a| Step::RegisterChild(*t, a, slots[*s as usize].tag)).unwrap_or(Step::Yield),
             PStep::SendToChildren(t) => Step::SendToChildren(*t, log::uid()),
             PStep::Subscribe(t) => Step::Subscribe(*t),
             PStep::Publish(t) => Step::Publish(*t, log::uid()),
